@@ -561,3 +561,40 @@ func matcherTable(n *cnode, d qframe.VerifFrame) string {
 	}
 	return hlib.List(items)
 }
+
+// genPromotionClause: a leaf comparing an int column with a FLOAT column (or the other way round) by an ordering
+// comparator — the implementation promotes the int column to float — inverted or not, alone or under Not / And /
+// Or.  Rows where the float side is NaN satisfy neither the comparison nor its "inverse comparator".
+func genPromotionClause(r *hlib.Rng, cols []genCol) *cnode {
+	var ic, fc *genCol
+	for i := range cols {
+		if cols[i].kind == "int" && ic == nil {
+			ic = &cols[i]
+		}
+		if cols[i].kind == "float" && fc == nil {
+			fc = &cols[i]
+		}
+	}
+	if ic == nil || fc == nil {
+		return nil
+	}
+	a, b := ic, fc
+	if r.Chance(1, 3) {
+		a, b = fc, ic
+	}
+	op := []string{"<", "<=", ">", ">=", "=", "!="}[r.Intn(6)]
+	leaf := &cnode{kind: "leaf", col: a.name, cmpS: op, cmpGo: op, argGo: types.ColumnName(b.name), argC: "(AColName " + hlib.Str(b.name) + ")",
+		inv: r.Bool(), desc: fmt.Sprintf("%s %q col(%s)", a.name, op, b.name)}
+	switch r.Intn(5) {
+	case 0:
+		return leaf
+	case 1:
+		return &cnode{kind: "not", subs: []*cnode{leaf}}
+	case 2:
+		return &cnode{kind: "and", subs: []*cnode{leaf}}
+	case 3:
+		return &cnode{kind: "or", subs: []*cnode{genLeaf(r, cols, false), leaf}}
+	default:
+		return &cnode{kind: "not", subs: []*cnode{{kind: "and", subs: []*cnode{leaf}}}}
+	}
+}
